@@ -181,7 +181,7 @@ CLAIMED = {
             'interval functions are enclosures; every real kernel called with an explicit directed mode '
             'honours it at its final rounding on every path (found: loggamma negated after rounding, so '
             'iv.loggamma was inverted for x < 1.46 - repaired); the cos/sin outward perturbation has the '
-            'right shape; every x + eps shortcut of the real kernels perturbs towards the sign of the neglected term (found: mpf_log near 1 - repaired); no directed kernel rounds a weakly guarded undirected intermediate (found: mpf_atan2 - repaired); interval functions outside the audited endpoint-level set remain compositions of interval operations; conversions round each endpoint outward; a packed interval is never used after one of its unpacked endpoints was recomputed (C-R9).  NOT decided: choice of corner / '
+            'right shape; every x + eps shortcut of the real kernels perturbs towards the sign of the neglected term (found: mpf_log near 1 - repaired); no directed kernel rounds a weakly guarded undirected intermediate (found: mpf_atan2 - repaired); interval functions outside the audited endpoint-level set remain compositions of interval operations; conversions round each endpoint outward; a packed interval is never used after one of its unpacked endpoints was recomputed (C-R9); + - * / on every combination of zero / infinite / signed endpoint classes return endpoint classes that enclose the exact range, never nan (C-R16, class interpretation).  NOT decided: choice of corner / '
             'monotonicity region (one seeded change of that kind is not detected) and the accuracy of the '
             'transcendental kernels inside their guard bits.',
             'Trusts the monotonicity table (sa/iv_dir.py), the reasoned operand exemptions '
